@@ -29,6 +29,7 @@ def gen_cases(tier, seed):
     n = 40 if tier == 'quick' else 600
     cases = [{'kind': rng.choice(['list', 'dict', 'namespace', 'value', 'box', 'managed', 'concurrent']), 'ops': rng.choice([60, 150, 300]),
               'agents': rng.choice([1, 2]), 'seed': rng.randrange(1 << 30)} for _ in range(n)]
+    cases += [{'kind': 'init-managed', 'ops': 0, 'agents': 1 + i, 'seed': i} for i in range(2)]
     cases += [{'kind': 'one-typeid-two-classes', 'first': f, 'ops': 0, 'agents': 1, 'seed': i} for i, f in enumerate(['counter', 'stack'])]
     # proxy lifetimes interleaved with calls (always present)
     cases += [{'kind': 'lifetimes', 'ops': rng.choice([150, 300]), 'agents': 1 + i % 2, 'seed': rng.randrange(1 << 30)} for i in range(4 if tier == 'quick' else 60)]
@@ -342,6 +343,24 @@ def run_case(case):
                             viol.append({'mech': 'proxy/managed-value-is-a-copy', 'msg': f'managed_dict mutations not visible in the server: {snap}'})
                             return
                         obs['operations'] += 18
+                elif kind == 'init-managed':
+                    # a registered class whose constructor makes a managed value (runs inside the server while the object is being created)
+                    reg['h'] = manager.Holder(3)
+                    r = call(0, 'h', 'own_proxy', [], None, 'HL')
+                    if r[0] != 'proxy':
+                        viol.append({'mech': 'proxy/managed-value-is-a-copy', 'msg': f'Holder.own_proxy() returned {str(r)[:200]}'})
+                        return
+                    share('HL', list(agents))
+                    local = [0, 1, 2]
+                    for j in range(8):
+                        actor = rng.choice([0] + list(agents))
+                        call(actor, 'HL', 'append', [('h', j)])
+                        local.append(('h', j))
+                        obs['managed_mutations'] += 1
+                        obs['operations'] += 1
+                    got = call(0, 'h', 'own_snapshot', [])
+                    if got != ('val', local) or call(0, 'h', 'own_len', []) != ('val', len(local)):
+                        viol.append({'mech': 'proxy/managed-value-is-a-copy', 'msg': f'managed value created in a constructor: server has {str(got)[:200]}, expected {local}'})
                 elif kind == 'one-typeid-two-classes':
                     # a typeid registered with a factory: two hosted objects of different classes (different methods) behind the same typeid,
                     # met by the harness process in one order and by the agent in the other
@@ -504,7 +523,7 @@ def run_case(case):
     except watch.Inconclusive as e:
         return {'violations': viol, 'obs': obs, 'inconclusive': str(e), 'exit_after': True}
     nontrivial = obs['raising_operations'] > 0 and obs['ops_via_agents'] > 0
-    return {'violations': viol[:3], 'obs': obs, 'nontrivial': nontrivial or kind in ('managed', 'concurrent', 'lifetimes', 'one-typeid-two-classes'), 'sig': hash((kind, case['seed'])) & 0xFFFFFFFFFFFF, 'exit_after': True,
+    return {'violations': viol[:3], 'obs': obs, 'nontrivial': nontrivial or kind in ('managed', 'concurrent', 'lifetimes', 'one-typeid-two-classes', 'init-managed'), 'sig': hash((kind, case['seed'])) & 0xFFFFFFFFFFFF, 'exit_after': True,
             'sample': {'kind': kind, 'agents': case['agents'], 'operations': obs['operations'], 'raising': obs['raising_operations'], 'via_agents': obs['ops_via_agents'],
                        'managed_mutations': obs['managed_mutations'], 'concurrent_ops': obs['concurrent_ops']}}
 
